@@ -1,11 +1,15 @@
 /-
-  C04 — dagger and spiders (equational part).
-  Dagger swaps the two interfaces and leaves nodes and hyperedges untouched, is an involution
-  and distributes over tensor (strict and lax); identities, symmetries and half-spiders are
-  spiders; spider construction is defined exactly when both legs are typed into the given node
-  list.  The two "up to isomorphism" clauses (contravariance of dagger, spider fusion) are kept
-  as `…_statement : Prop` at the end of the file; the part of spider fusion that holds on the
-  nose (the composite of two spiders is discrete: it is again a spider) is proved.
+  C04 — dagger and spiders give the hypergraph-category structure.
+  * Dagger swaps the two interfaces and leaves nodes and hyperedges untouched, is an involution
+    and distributes over tensor (strict and lax): equalities of data.
+  * Identities, symmetries and half-spiders are spiders; spider construction is defined exactly
+    when both legs are typed into the given node list and never panics (strict and lax).
+  * `spider_fusion`: the composite of two spiders is again a spider, on the connected classes of
+    the glued boundary (every lawful backend).
+  * `dagger_comp`: `(f ; g)† ≅ g† ; f†` (every lawful backend).  These two use the
+    characterisation of composition `OH.C01` and the quotient library `OHVerif.Lemmas.Quot`.
+  * The lax versions of the last two clauses need strictification of diagrams WITH pending
+    unifications and are recorded as `lax_…_statement : Prop` at the end.
 -/
 import OHVerif.Lemmas.LaxStrict
 import OHVerif.Spec.Diagram
@@ -51,6 +55,11 @@ theorem dagger_target (f : OHG O A) (h : f.s.target = f.h.w.length) :
   simp only [OHG.source, OHG.target, OHG.dagger, FinFun.composeSemi, h, if_true]
   have := FinFun.gather_ne_none f.h.w f.s.table
   cases hg : Prim.gather f.h.w f.s.table <;> simp_all [Res.unwrap]
+
+/-- without the typing hypothesis the two sides are both panics, but at different sites -/
+example :
+    let f : OHG String String := ⟨⟨[], 0⟩, ⟨[], 1⟩, HG.discrete []⟩
+    f.dagger.source = .panic "source:expect" ∧ f.target = .panic "target:expect" := by decide
 
 /-- dagger distributes over tensor: equality in `Res` (same value, same failure) -/
 theorem dagger_tensor (f g : OHG O A) :
@@ -148,6 +157,12 @@ example : (OHG.spider ⟨[0, 0, 2], 3⟩ ⟨[1], 3⟩ ["a", "b", "c"] : Res (OHG
     (OHG.spider ⟨[0, 0, 2], 3⟩ ⟨[1], 2⟩ ["a", "b", "c"] : Res (OHG String String)) = .none ∧
     (⟨[0, 0, 2], 3⟩ : FinFun).WF ∧ (⟨[1], 3⟩ : FinFun).WF :=
   ⟨rfl, rfl, rfl, by decide, by decide⟩
+
+/-- `spider` only compares the DECLARED codomain of the legs with the node count: a leg whose
+    table is out of range (an ill-formed finite function) is accepted and yields an ill-formed
+    diagram; hence the hypotheses `s.WF`, `t.WF` in `spider_wf` -/
+example : (OHG.spider ⟨[5], 1⟩ ⟨[], 1⟩ ["a"] : Res (OHG String String)).isOk = true ∧
+    (⟨⟨[5], 1⟩, ⟨[], 1⟩, HG.discrete ["a"]⟩ : OHG String String).wf = false := by decide
 
 /-- the dagger of a spider is the spider with the legs exchanged -/
 theorem dagger_spider (s t : FinFun) (w : List O) :
@@ -370,6 +385,8 @@ example :
     let s' : FinFun := ⟨[0, 0], 2⟩
     let t' : FinFun := ⟨[1, 1, 0], 2⟩
     s.WF ∧ t.WF ∧ s'.WF ∧ t'.WF ∧
+    (OHG.spider s t ["a", "b", "b"] >>= fun f => OHG.target (A := String) f) =
+      (OHG.spider s' t' ["b", "c"] >>= fun g => OHG.source (A := String) g) ∧
     (OHG.spider s t ["a", "b", "b"] >>= fun f => OHG.spider s' t' ["b", "c"] >>= fun g =>
       (OHG.toPlain <$> OHG.compose vecBackend (A := String) f g)) =
       .ok ⟨["a", "b", "c"], [], [0, 0], [2, 2, 1]⟩ := by decide
@@ -589,5 +606,29 @@ example : C01.exF.wf = true ∧ C01.exG.wf = true ∧ C01.exF.target = C01.exG.s
       .ok ⟨[20, 30, 10], [⟨8, [0, 0], [1]⟩, ⟨7, [2], [0, 0]⟩], [1], [2]⟩ := by decide
 
 end DaggerComp
+
+/-! ### lax versions of the two "up to isomorphism" clauses (NOT proved here)
+
+For lax diagrams the composite carries pending unifications, so contravariance of dagger and
+spider fusion only make sense after strictification; they are instances of
+`OH.C10.strict_comp_statement` composed with `dagger_comp` / `spider_fusion` above. -/
+
+/-- strict((f ; g)†) ≅ strict(g† ; f†) for lax diagrams -/
+def lax_dagger_comp_statement : Prop :=
+  ∀ {O A : Type} [DecidableEq O] (B : Backend), B.Lawful → ∀ (f g c : LOHG O A) (r : OHG O A),
+    f.wf = true → g.wf = true → LOHG.compose f g = .ok c → LOHG.toStrict B c = .ok r →
+    ∃ c' r', LOHG.compose g.dagger f.dagger = .ok c' ∧ LOHG.toStrict B c' = .ok r' ∧
+      r.dagger.toPlain ≅ r'.toPlain
+
+/-- the strictified lax composite of two lax spiders is isomorphic to the strict composite of
+    the two strict spiders (which `spider_fusion` describes) -/
+def lax_spider_fusion_statement : Prop :=
+  ∀ {O A : Type} [DecidableEq O] (B : Backend), B.Lawful →
+    ∀ (s t s' t' : FinFun) (w w' : List O) (f g : OHG O A) (lf lg : LOHG O A),
+    s.WF → t.WF → s'.WF → t'.WF →
+    OHG.spider s t w = .ok f → OHG.spider s' t' w' = .ok g →
+    LOHG.spider s t w = .ok lf → LOHG.spider s' t' w' = .ok lg → f.target = g.source →
+    ∃ c r r', LOHG.compose lf lg = .ok c ∧ LOHG.toStrict B c = .ok r ∧
+      OHG.compose B f g = .ok r' ∧ r'.toPlain ≅ r.toPlain
 
 end OH.C04
